@@ -219,7 +219,7 @@ impl MainState {
                     lemma_jcount_bound(o, mj, me, src, chans, keys_opt, i as int);
                     ax_set_vec_len_bound(o.users@[me].channels, channels);
                 }
-//@before ~joined_created\.push\(\(do_join, create\)\);
+//@before ~joined_created\.push\(
                 proof {
                     assert(sk(chans[i as int]) == chname);
                     assert(join == join_pre(o, me, src, chname, key_at(keys_opt, i as int))); // @prop C07
